@@ -2975,11 +2975,6 @@ let model_lines model =
 let split_M model =
   split_lines s0 (model_lines model)
 
-(** val mem_string : char list -> char list list -> bool **)
-
-let mem_string k l =
-  existsb (eqb0 k) l
-
 (** val dict_combine :
     char list -> symbol -> (char list * symbol) list -> (char list * symbol)
     list outcome **)
@@ -3000,14 +2995,6 @@ let rec equation_symbols_go equation code terms symbols functions =
   | [] -> Ret symbols
   | t :: rest ->
     (match t.ttype with
-     | TFunction ->
-       let sym = { sname = (Some t.tname); stype = TFunction; slags =
-         t.tindex; sleads = t.tindex; sequation = None; scode = None }
-       in
-       if mem_string t.tname functions
-       then equation_symbols_go equation code rest symbols functions
-       else equation_symbols_go equation code rest
-              (dict_set t.tname sym symbols) (t.tname :: functions)
      | TVerbatim -> equation_symbols_go equation code rest symbols functions
      | x ->
        let sym =
@@ -3554,6 +3541,7 @@ type chk_res =
 | ChkSyntaxWarning
 | ChkOtherWarning of nat
 | ChkOtherExn
+| ChkCaughtExn
 
 type verdict =
 | VFine
@@ -4697,23 +4685,136 @@ let rec assoc_stmt n0 = function
 | [] -> None
 | p :: r -> let (k, s) = p in if eqb0 n0 k then Some s else assoc_stmt n0 r
 
+(** val code_index : char list -> (z * char list) option **)
+
+let code_index s =
+  match prefix_rest ('['::('t'::[])) s with
+  | Some s1 ->
+    (match s1 with
+     | [] -> None
+     | c::r ->
+       if (=) c ']'
+       then Some (Z0, r)
+       else if (||) ((=) c '+') ((=) c '-')
+            then let (ds, r2) = span_while is_digit r in
+                 (match ds with
+                  | [] -> None
+                  | _::_ ->
+                    (match r2 with
+                     | [] -> None
+                     | d::r3 ->
+                       if (=) d ']'
+                       then Some
+                              ((if (=) c '-'
+                                then Z.opp (digits_Z Z0 ds)
+                                else digits_Z Z0 ds), r3)
+                       else None))
+            else None)
+  | None -> None
+
+(** val code_word : char list -> ctok **)
+
+let code_word w =
+  if (||)
+       ((||)
+         ((||)
+           ((||) (eqb0 w ('n'::('p'::('.'::('e'::('x'::('p'::[])))))))
+             (eqb0 w ('n'::('p'::('.'::('l'::('o'::('g'::[]))))))))
+           (eqb0 w ('m'::('a'::('x'::[]))))) (eqb0 w ('m'::('i'::('n'::[])))))
+       (eqb0 w ('a'::('b'::('s'::[]))))
+  then CFun w
+  else if eqb0 w ('i'::('f'::[]))
+       then CX XIf
+       else if eqb0 w ('e'::('l'::('s'::('e'::[]))))
+            then CX XElse
+            else if eqb0 w ('a'::('n'::('d'::[])))
+                 then CX XAnd
+                 else if eqb0 w ('o'::('r'::[]))
+                      then CX XOr
+                      else if eqb0 w ('n'::('o'::('t'::[])))
+                           then CX XNot
+                           else CBad
+
+(** val lex_code : nat -> char list -> ctok list **)
+
+let rec lex_code fuel s =
+  match fuel with
+  | O -> CBad :: []
+  | S f ->
+    (match s with
+     | [] -> []
+     | c::r ->
+       if (=) c nl
+       then CBad :: []
+       else if is_space c
+            then lex_code f r
+            else if (||) (is_digit c) ((=) c '.')
+                 then let (num, rest) =
+                        span_while (fun d -> (||) (is_digit d) ((=) d '.')) s
+                      in
+                      (CNum num) :: (lex_code f rest)
+                 else if (=) c '*'
+                      then (match r with
+                            | [] -> CStar :: []
+                            | d::r2 ->
+                              if (=) d '*'
+                              then CPow :: (lex_code f r2)
+                              else CStar :: (lex_code f r))
+                      else if is_opc c
+                           then (match r with
+                                 | [] -> (op1 c) :: []
+                                 | d::r2 ->
+                                   if (=) d '='
+                                   then (op2 c) :: (lex_code f r2)
+                                   else (op1 c) :: (lex_code f r))
+                           else if is_alpha_ c
+                                then (match prefix_rest
+                                              ('s'::('e'::('l'::('f'::('.'::('_'::[]))))))
+                                              s with
+                                      | Some r1 ->
+                                        let (name, r2) = span_while is_idc r1
+                                        in
+                                        (match code_index r2 with
+                                         | Some p ->
+                                           let (k, r3) = p in
+                                           (CRead (name,
+                                           k)) :: (lex_code f r3)
+                                         | None -> CBad :: [])
+                                      | None ->
+                                        let (w, r1) = span_while is_fnc s in
+                                        (code_word w) :: (lex_code f r1))
+                                else (tok_of_char c) :: (lex_code f r))
+
+(** val stmt_of_code :
+    (char list -> nat option) -> char list -> (char list * sstmt) option **)
+
+let stmt_of_code row code =
+  stmt_of_tokens row (lex_code (S (length0 code)) code)
+
 (** val program_of_symbols :
     symbol list -> char list list -> (char list list * sprogram) option **)
 
 let program_of_symbols syms stmts =
-  if existsb (fun s -> type_eqb s.stype TVerbatim) syms
-  then None
-  else let names = names_of syms in
-       (match all_some (map (stmt_of_equation (row_of names)) stmts) with
-        | Some defs ->
-          (match all_some
-                   (map (fun s ->
-                     match s.sname with
-                     | Some n0 -> assoc_stmt n0 defs
-                     | None -> None) (filter emits syms)) with
-           | Some prog -> Some (names, prog)
-           | None -> None)
-        | None -> None)
+  let names = names_of syms in
+  (match all_some
+           (map (stmt_of_equation (row_of names))
+             (filter (fun st ->
+               negb ((&&) (head_is '`' st) (last_is '`' st))) stmts)) with
+   | Some defs ->
+     (match all_some
+              (map (fun s ->
+                match s.sname with
+                | Some n0 -> assoc_stmt n0 defs
+                | None ->
+                  (match s.scode with
+                   | Some c ->
+                     (match stmt_of_code (row_of names) c with
+                      | Some p -> let (_, st) = p in Some st
+                      | None -> None)
+                   | None -> None)) (filter emits syms)) with
+      | Some prog -> Some (names, prog)
+      | None -> None)
+   | None -> None)
 
 (** val program_of_script :
     char list -> (char list list * sprogram) option **)
